@@ -90,10 +90,11 @@ Fixpoint iter {A} (n : nat) (f : A -> A) (x : A) : A :=
 Definition close_up (ig : graph) (l : list iface) : list iface :=
   iter (S (length ig)) (fun acc => add_new (flat_map (bases ig) acc) acc) (add_new l [iroot]).
 
-(* per class: declared interfaces (a set) and whether the class still inherits *)
-Definition sdecl := list (list iface * bool).
-Definition sd_get (d : sdecl) (c : cls) : list iface * bool := nth c d ([], true).
-Fixpoint sd_set (d : sdecl) (c : cls) (x : list iface * bool) : sdecl :=
+(* per class: declared interfaces (a set), declared class specifications (a set) and whether the
+   class still inherits *)
+Definition sdecl := list (list iface * list cls * bool).
+Definition sd_get (d : sdecl) (c : cls) : list iface * list cls * bool := nth c d ([], [], true).
+Fixpoint sd_set (d : sdecl) (c : cls) (x : list iface * list cls * bool) : sdecl :=
   match d, c with
   | [], _ => []
   | _ :: t, 0 => x :: t
@@ -103,9 +104,16 @@ Fixpoint sd_set (d : sdecl) (c : cls) (x : list iface * bool) : sdecl :=
 (* content of every class, filled in class order (bases come first) *)
 Definition contents (E : env) (d : sdecl) : list (list iface) :=
   fold_left (fun tbl c =>
-               let '(decl, inh) := sd_get d c in
-               tbl ++ [add_new (if inh then flat_map (fun b => nth b tbl []) (bases (e_cg E) c) else [])
+               let '(decl, specs, inh) := sd_get d c in
+               tbl ++ [add_new (flat_map (fun b => nth b tbl []) (specs ++ if inh then bases (e_cg E) c else []))
                                (close_up (e_ig E) decl)])
+            (seq 0 (length (e_cg E))) [].
+
+(* the classes whose specification is part of the specification of every class (same fill) *)
+Definition spec_members (E : env) (d : sdecl) : list (list cls) :=
+  fold_left (fun tbl c =>
+               let '(_, specs, inh) := sd_get d c in
+               tbl ++ [add_new (flat_map (fun b => nth b tbl []) (specs ++ if inh then bases (e_cg E) c else [])) [c]])
             (seq 0 (length (e_cg E))) [].
 
 Definition content (E : env) (d : sdecl) (c : cls) : list iface := nth c (contents E d) [].
@@ -114,8 +122,13 @@ Definition content (E : env) (d : sdecl) (c : cls) : list iface := nth c (conten
    the *only* form replaces the declarations and stops inheriting *)
 Definition s_add (E : env) (d : sdecl) (c : cls) (ifs : list iface) : sdecl :=
   let cur := content E d c in
-  let '(decl, inh) := sd_get d c in
-  sd_set d c (add_new (filter (fun x => negb (mem x cur)) ifs) decl, inh).
+  let '(decl, specs, inh) := sd_get d c in
+  sd_set d c (add_new (filter (fun x => negb (mem x cur)) ifs) decl, specs, inh).
+
+(* classImplements(c, implementedBy(b)): likewise for a class specification *)
+Definition s_add_spec (E : env) (d : sdecl) (c b : cls) : sdecl :=
+  let '(decl, specs, inh) := sd_get d c in
+  if mem b (nth c (spec_members E d) []) then d else sd_set d c (decl, add_new [b] specs, inh).
 
 (* the classes strictly after C in the reported MRO *)
 Fixpoint after (C : cls) (mro : list cls) : list cls :=
@@ -135,9 +148,29 @@ Definition expect_arg (E : env) (mros : list (list cls)) (d : sdecl) (a : arg) :
       | [] => None
       | rest => Some (sort_set (n_ifaces E) (iroot :: flat_map (content E d) rest))
       end
+  (* bound to the class T: the remainder of T's own MRO *)
+  | ASuperC C T =>
+      match after C (nth T mros []) with
+      | [] => None
+      | rest => Some (sort_set (n_ifaces E) (iroot :: flat_map (content E d) rest))
+      end
+  | AUnbound _ => None                      (* judged separately: [spec_unbound] *)
   end.
 
-Definition self_of (a : arg) : nat := match a with AObj j => j | ASuper _ j => j end.
+(* what the factory must receive: the instance, or the class object a class-bound proxy stands for *)
+Definition self_of (a : arg) : nat :=
+  match a with AObj j => j | ASuper _ j => j | ASuperC _ T => cls_ident T | AUnbound _ => none_ident end.
+Definition is_unbound (a : arg) : bool := match a with AUnbound _ => true | _ => false end.
+
+(* an unbound proxy stands for no object: an exception, or a specification claiming nothing but
+   Interface *)
+Definition spec_unbound (ans : list nat) (ip : option (list nat)) : bool :=
+  match ans with
+  | [0] => true
+  | 1 :: _ :: _ :: got =>
+      forallb (Nat.eqb iroot) got && match ip with Some l => forallb (Nat.eqb iroot) l | None => true end
+  | _ => false
+  end.
 
 Fixpoint all_some {A} (l : list (option A)) : option (list A) :=
   match l with
@@ -150,6 +183,7 @@ Definition spec_query (E : env) (mros : list (list cls)) (d : sdecl) (a : arg) (
            (ans : list nat) (ip : option (list nat)) : bool :=
   match a, implby with
   | AObj _, true => true                       (* implementedBy(instance): not this property *)
+  | AUnbound _, _ => spec_unbound ans ip
   | _, _ =>
       match expect_arg E mros d a with
       | None => true
@@ -164,6 +198,7 @@ Definition spec_query (E : env) (mros : list (list cls)) (d : sdecl) (a : arg) (
 
 Definition spec_adapt (E : env) (mros : list (list cls)) (d : sdecl) (regs : list registration)
            (args : list arg) (p : iface) (n : name) (ans : list nat) : bool :=
+  if existsb is_unbound args then true else
   match all_some (map (expect_arg E mros d) args) with
   | None => true
   | Some wants =>
@@ -184,7 +219,8 @@ Fixpoint spec_run (E : env) (mros : list (list cls)) (d : sdecl) (regs : list re
       match o with
       | OImplements c ifs => spec_run E mros (s_add E d c ifs) regs ops' ans' ips'
       | OFirst c i => spec_run E mros (s_add E d c [i]) regs ops' ans' ips'
-      | OOnly c ifs => spec_run E mros (sd_set d c (add_new ifs [], false)) regs ops' ans' ips'
+      | OOnly c ifs => spec_run E mros (sd_set d c (add_new ifs [], [], false)) regs ops' ans' ips'
+      | OImplSpec c b => spec_run E mros (s_add_spec E d c b) regs ops' ans' ips'
       | OProvidedBy x => spec_query E mros d x false a ip && spec_run E mros d regs ops' ans' ips'
       | OImplementedBy x => spec_query E mros d x true a ip && spec_run E mros d regs ops' ans' ips'
       | ORegister r => spec_run E mros d (regs ++ [r]) ops' ans' ips'
@@ -196,7 +232,7 @@ Fixpoint spec_run (E : env) (mros : list (list cls)) (d : sdecl) (regs : list re
 Definition check_spec_decl (c : decl_case) : bool :=
   let '(_, E, mros, ops, ans, ips) := c in
   Nat.eqb (length mros) (length (e_cg E))
-  && spec_run E mros (map (fun _ => ([], true)) (e_cg E)) [] ops ans ips.
+  && spec_run E mros (map (fun _ => ([], [], true)) (e_cg E)) [] ops ans ips.
 
 (* registry stream: whenever a factory ran (answer [1; r], r = factory * 1000 + one digit per
    object it received, see Tie.RegCommon.call) the digits are those of the UNDERLYING objects:
